@@ -35,22 +35,24 @@ def ecs_family(ctx, thorough):
             raise vf.MachineryError("ecs replay ran no cases")
 
 
-def denial_family(ctx, thorough):
+def denial_family(ctx, thorough, focus=""):
     """EcsDenial.tla: ECS- and CD-carrying queries neither consume nor create shared synthesised denials."""
-    ctx.tlc("Ecs", "EcsDenial.tla", "MC_EcsDenial.cfg", workers=2, timeout=300, heap="2g")
-    for cfg, want in (("MC_EcsDenial_mutant.cfg", ("NeverCreates", "NeverConsumes")), ("MC_EcsDenial_reach.cfg", ("NeverSynth",))):
-        r = ctx.tlc("Ecs", "EcsDenial.tla", cfg, workers=2, timeout=300, heap="2g", must_pass=False, count=False, tag="must-fail")
+    ctx.tlc("Ecs", "MC_EcsDenial.tla", "MC_EcsDenial.cfg", workers=2, timeout=300, heap="2g")
+    for cfg, want in (("MC_EcsDenial_mutant.cfg", ("NeverCreates", "NeverConsumes", "ADDiscipline")), ("MC_EcsDenial_reach.cfg", ("NeverSynth",))):
+        r = ctx.tlc("Ecs", "MC_EcsDenial.tla", cfg, workers=2, timeout=300, heap="2g", must_pass=False, count=False, tag="must-fail")
         if r.violated not in want:
             raise vf.MachineryError("%s: expected %s to fail, got %r" % (cfg, want, r.violated))
-    behs = ctx.tlc_behaviours("Ecs", "EcsDenial.tla", "Sim_EcsDenial.cfg", num=150 if not thorough else 2000, depth=7)
+    behs = ctx.tlc_behaviours("Ecs", "MC_EcsDenial.tla", "Sim_EcsDenial.cfg", num=150 if not thorough else 2000, depth=7)
     out, seen = [], set()
     for b in behs:
         steps = []
         for i in range(1, len(b)):
-            m = re.match(r'Ask\("(\w+)",\s*"(\w+)"\)', b[i][0])
+            m = re.match(r'Ask\("(\w+)",\s*"(\w+)"', b[i][0])
             if not m:
                 raise vf.MachineryError("unexpected label " + b[i][0])
-            steps.append({"kind": m.group(1), "born": m.group(2), "out": b[i][1]["last"]["out"], "cut": bool(b[i - 1][1]["cut"])})
+            last = b[i][1]["last"]
+            steps.append({"kind": m.group(1), "born": m.group(2), "do": bool(last["f"]["do"]), "ad": bool(last["f"]["ad"]),
+                          "out": last["out"], "cut": bool(b[i - 1][1]["cut"])})
         k = repr(steps)
         if steps and k not in seen:
             seen.add(k)
@@ -58,7 +60,7 @@ def denial_family(ctx, thorough):
             ctx._distinct.add("ecsdenial:" + k)
     if len(out) < 30:
         raise vf.MachineryError("EcsDenial simulation produced only %d behaviours" % len(out))
-    res = ctx.go_driver("./c19", "TestEcsDenialBypass", {"behaviours": out}, name="ecs_denial", timeout=900)
+    res = ctx.go_driver("./c19", "TestEcsDenialBypass", {"behaviours": out, "focus": focus}, name="ecs_denial", timeout=900)
     ctx.take_driver_result(res, "[EcsDenial] ")
     cnt = res.get("counters", {})
     ctx.cov["replay"]["ecs_denial"] = {"behaviours": len(out), "cases": res["cases"], "drift": res["drift"],
